@@ -69,6 +69,8 @@ struct X {
     /// calls in flight in the sibling bulkhead (kept alive, never completed)
     #[allow(dead_code)]
     sibling: Vec<std::pin::Pin<Box<dyn std::future::Future<Output = bool>>>>,
+    /// the sibling did not admit its own first callers at once (judged as C07's clause)
+    sibling_short: Option<String>,
 }
 
 fn has_inner(w: &World, c: usize) -> bool {
@@ -180,6 +182,7 @@ impl Scenario for Bh {
             None
         };
         let mut sibling: Vec<std::pin::Pin<Box<dyn std::future::Future<Output = bool>>>> = vec![];
+        let mut sibling_short: Option<String> = None;
         if self.busy_sibling {
             // a second bulkhead made by the same layer value, over a wrapped service of its own
             // whose calls never complete: it is filled up and stays full
@@ -195,9 +198,13 @@ impl Scenario for Bh {
                 }));
                 sibling.push(f);
             }
-            assert_eq!(other.lock().unwrap().live(), self.max, "the sibling bulkhead did not admit its own calls");
+            let admitted = other.lock().unwrap().live();
+            if admitted != self.max {
+                // (not the harness's problem: reported by the first step oracle)
+                sibling_short = Some(format!("the sibling bulkhead (idle, max={}) admitted only {admitted} of its first {} callers in their first poll", self.max, self.max));
+            }
         }
-        X { nest, svc, first_poll_pre: None, w_release_and_timeout: false, completes_at: vec![], sibling }
+        X { nest, svc, first_poll_pre: None, w_release_and_timeout: false, completes_at: vec![], sibling, sibling_short }
     }
     fn arrive(&self, w: &mut World, x: &mut X, c: usize, _v: u8) {
         let nest = x.nest.clone();
@@ -285,6 +292,9 @@ impl Scenario for Bh {
             return;
         }
         // C07 clauses
+        if let Some(d) = x.sibling_short.take() {
+            out.push(Viol::new("not_admitted_at_once", site, d));
+        }
         if let Some((c, live_before, queued_before)) = x.first_poll_pre {
             if live_before < self.max && queued_before == 0 && !has_inner(w, c) {
                 out.push(Viol::new(
